@@ -530,6 +530,14 @@ def make_machine(prop, tier, cfg):
             w = draw(worlds.multiband_world_strategy())
         if draw(st.integers(0, 2)) > 0:
             w['eqpt']['Span'][0]['EOL'] = 0     # EOL != 0 runs into the known finding that waives the fixpoint
+        if w['flavour'] == 'small' and draw(st.integers(0, 3)) == 0:
+            # amplifiers close to their maximum output power: long spans (large power offsets) and a raised design power
+            w['eqpt']['SI'][0]['power_dbm'] = draw(st.sampled_from([1.5, 1.0, 2.0, 1.25, 0.75]))
+            w['eqpt']['Span'][0]['power_mode'] = True
+            for e in w['topo']['elements']:
+                if e['type'] == 'Fiber' and draw(st.integers(0, 3)) > 0:
+                    e['params']['length'] = draw(st.sampled_from([140.0, 130.0, 150.0, 120.0, 145.0]))
+                    e['params'].pop('lumped_losses', None)
         return w
 
     class E4Machine(RuleBasedStateMachine):
